@@ -7,7 +7,10 @@ synthetic `kern` table; variable fonts given vertical-metrics variations in the 
 generated fonts (vmon/gen/c07_fea.py) whose contextual rules call shared nested lookups while the glyphs
 those depend on are produced by later lookups of an earlier shaping stage; generated variable fonts with several
 overlapping FeatureVariationRecords (vmon/gen/c07_fvars.py), shaped in every cell of the condition grid; generated
-CFF fonts with seac-style accented glyphs (vmon/gen/c07_cff.py); corpus fonts whose format-12 and format-4 Unicode
+CFF fonts with seac-style accented glyphs (vmon/gen/c07_cff.py); generated layout-rich (variable) fonts
+(vmon/gen/c07_lay.py: several lookup records at one position chained through 1:1 substitutions, language systems
+extending/excluding the default's features shaped with every declared language, anchors/values variable in one
+coordinate or carrying hinting devices, useExtension on every lookup type, mark filtering sets); corpus fonts whose format-12 and format-4 Unicode
 subtables disagree on BMP code points) × random requests × random option combinations, driven through the real
 `Subsetter`.  Monitors sit on `Subsetter.subset`, `_closure_glyphs`, every per-table
 `closure_glyphs/subset_glyphs/prune_*` method the subsetter registers on table classes,
@@ -52,7 +55,7 @@ REQUIRED_MONITORS = [
 ]
 CASE_TIMEOUT = 240
 MANIFEST = {
-    "text": "Exploration: corpus fonts with layout tables, kern, variations, COLR or MATH (PUA-augmented and plain; variable fonts also with derived VVAR shapes: implicit advance-height map, VOrgMap/TsbMap interleaved with advance rows) and feaLib-compiled generated fonts whose closure needs several rounds (contextual rules calling shared nested ligature/single/multiple/contextual lookups, producers in later lookups of an earlier shaping stage), generated variable fonts with 2-4 overlapping FeatureVariationRecords over 1-2 axes (features dropped by the request so that leading/middle records empty out; shaped in every cell of the condition grid), generated CFF fonts with seac-style endchar accents with and without explicit width, and corpus fonts given disagreeing format-4/format-12 Unicode subtables (BMP-only requests) are subset through the real Subsetter with random requests (unicode sets, singletons, all-but-one, glyph names, glyph ids, text, everything) and random option combinations; monitors on Subsetter.subset/_closure_glyphs, every per-table closure/subset/prune method, Lookup-level per-type counters and VarStore.subset_varidxes. Each saved subset is judged by HarfBuzz (presence, differential shaping over all short texts of retained characters, outlines/advances/COLR/MATH by glyph name at default and random locations) and by a struct-level glyph-id reference sweep. Tests cannot settle this because closure and remapping depend on the requested set and the suite only diffs about 86 fixed cases against stored TTX.",
+    "text": "Exploration: corpus fonts with layout tables, kern, variations, COLR or MATH (PUA-augmented and plain; variable fonts also with derived VVAR shapes: implicit advance-height map, VOrgMap/TsbMap interleaved with advance rows) and feaLib-compiled generated fonts whose closure needs several rounds (contextual rules calling shared nested ligature/single/multiple/contextual lookups, producers in later lookups of an earlier shaping stage), generated variable fonts with 2-4 overlapping FeatureVariationRecords over 1-2 axes (features dropped by the request so that leading/middle records empty out; shaped in every cell of the condition grid), generated CFF fonts with seac-style endchar accents with and without explicit width, generated layout-rich variable fonts (multi-record contextual rules chained through 1:1 substitutions, per-language locl/kern with include/exclude_dflt shaped with every declared language tag, anchors and values variable in one coordinate only or with hinting devices, useExtension on all lookup types, mark filtering sets and attachment classes; base-mark-base texts), and corpus fonts given disagreeing format-4/format-12 Unicode subtables (BMP-only requests) are subset through the real Subsetter with random requests (unicode sets, singletons, all-but-one, glyph names, glyph ids, text, everything) and random option combinations; monitors on Subsetter.subset/_closure_glyphs, every per-table closure/subset/prune method, Lookup-level per-type counters and VarStore.subset_varidxes. Each saved subset is judged by HarfBuzz (presence, differential shaping over all short texts of retained characters, outlines/advances/COLR/MATH by glyph name at default and random locations) and by a struct-level glyph-id reference sweep. Tests cannot settle this because closure and remapping depend on the requested set and the suite only diffs about 86 fixed cases against stored TTX.",
     "note": "Trusted base: HarfBuzz 12.1, vmon/oracle/c07_refsweep.py (spec-written reader), geom.py. Preconditions: texts only over requested+present code points without Unicode-driven shaping side effects; intentionally dropped behaviour (feature tags, --no-layout-closure, legacy kern, .notdef outline) is removed from the original's expectation as well; notdef_glyph=False and AAT/Graphite fonts not generated.",
     "technique": "monitors on the real subsetter functions; differential shaping and rendering through HarfBuzz; independent struct-level reference sweep",
     "design_ref": "DESIGN.md §4 C07",
@@ -62,7 +65,7 @@ _AAT = {"morx", "mort", "kerx", "Silf", "Glat", "Gloc", "feat", "trak", "just"}
 
 
 # ================================================================== monitors
-_mon = {"subset": None, "closure": None, "notes": Counter(), "varidx": 0}
+_mon = {"subset": None, "closure": None, "notes": Counter(), "varidx": 0, "emptied_langsys": set(), "emptied_scripts": set()}
 
 
 def _note(k, n=1):
@@ -108,6 +111,8 @@ def setup():
     # ---- Subsetter.subset (around) -------------------------------------------------
     def pre_subset(a, kw):
         s, font = a[0], a[1]
+        _mon["emptied_langsys"] = set()
+        _mon["emptied_scripts"] = set()
         return {
             "unicodes": set(s.unicodes_requested), "glyphs": set(s.glyph_names_requested),
             "gids": set(s.glyph_ids_requested), "order": list(font.getGlyphOrder()),
@@ -239,6 +244,27 @@ def setup():
     import fontTools.cffLib as cffLib
     for m in ("desubroutinize", "remove_hints", "remove_unused_subroutines"):
         hooks.attach(cffLib.CFFFontSet, m, name="CFFFontSet." + m)
+
+    # ---- language systems / scripts deleted because they became empty (mechanism label for shaping differences)
+    def pre_scriptlist(a, kw):
+        return {r.ScriptTag: (bool(r.Script.DefaultLangSys), [l.LangSysTag for l in r.Script.LangSysRecord]) for r in a[0].ScriptRecord}
+
+    def post_scriptlist(st, a, kw, res, exc):
+        if exc is not None or st is None:
+            return
+        after = {r.ScriptTag: (bool(r.Script.DefaultLangSys), [l.LangSysTag for l in r.Script.LangSysRecord]) for r in a[0].ScriptRecord}
+        for sc, (dflt, langs) in st.items():
+            if sc not in after:
+                _mon["emptied_scripts"].add(sc)
+                _note("script record deleted (became empty)")
+                continue
+            for lg in langs:
+                if lg not in after[sc][1]:
+                    _mon["emptied_langsys"].add((sc, lg))
+                    _note("LangSys deleted (became empty)")
+
+    hooks.attach(otTables.ScriptList, "subset_features", pre=pre_scriptlist, post=post_scriptlist, name="subset_features:ScriptList")
+    hooks.attach(otTables.ScriptList, "prune_features", pre=pre_scriptlist, post=post_scriptlist, name="prune_features:ScriptList")
 
     # ---- every method the subsetter registers on table / subtable classes -------------
     names = ("closure_glyphs", "subset_glyphs", "prune_pre_subset", "prune_post_subset", "subset_lookups",
@@ -1055,6 +1081,15 @@ def _shaping(case, ctx, rnd, opts, chars, S0, S1, cmp_bytes, sub_bytes, orig_ord
         texts += [[rnd.choice(chars), rnd.choice(chars)] for _ in range(budget - n)]
     for _ in range(40 if quick else 120):
         texts.append([rnd.choice(chars) for _i in range(rnd.randint(3, 8))])
+    h_cls = H.HB(cmp_bytes)
+    marks = [c for c in chars if h_cls.face.get_layout_glyph_class(h_cls.nominal(c)) == 3]
+    if marks:
+        nm = [c for c in chars if c not in marks]
+        trip = [[a, m, b] for m in marks[:3] for a in nm for b in nm]
+        if len(trip) > (150 if quick else 500):
+            trip = rnd.sample(trip, 150 if quick else 500)
+        texts += trip
+        ctx.note("base-mark-base texts", len(trip))
     active = 0
     total = 0
     import unicodedata
@@ -1101,7 +1136,13 @@ def _shaping(case, ctx, rnd, opts, chars, S0, S1, cmp_bytes, sub_bytes, orig_ord
                     diff = "offsets"
                 else:
                     diff = "clusters"
-                bad({"kind": "shaping", "diff": diff, "presence_changed": has_a != has_b},
+                # mechanism labels: the language system / script used for shaping was deleted by the subsetter
+                # because all its features were subset away (HarfBuzz then falls back to the default language
+                # system / DFLT script, whose features may differ)
+                ls_emptied = lang != "dflt" and (script, lang) in _mon["emptied_langsys"]
+                sc_emptied = script in _mon["emptied_scripts"]
+                bad({"kind": "shaping", "diff": diff, "presence_changed": has_a != has_b,
+                     "langsys_emptied": ls_emptied, "script_emptied": sc_emptied},
                     "text %s shapes differently: original %s, subset %s" % (["U+%04X" % c for c in t], ra, rb),
                     text=["U+%04X" % c for c in t], script=script, lang=lang, direction=direction, features=f, location=loc,
                     original=ra, subset=rb)
